@@ -61,5 +61,15 @@ def install():
             mod.queue = qm
         if getattr(mod, "threading", None) is _th:
             mod.threading = thm
+    # python-can's own virtual bus and Notifier (used by one configuration of C03 only):
+    # their queue, clock, lock and thread seams are module globals as well
+    import can.bus
+    import can.interfaces.virtual
+    import can.notifier
+    can.interfaces.virtual.queue = qm
+    can.interfaces.virtual.time = tm
+    can.notifier.threading = thm
+    can.notifier.time = tm
+    can.bus.time = tm.time
     logging.disable(logging.CRITICAL)
     _installed = True
